@@ -40,7 +40,7 @@ def main(argv: list[str] | None = None) -> int:
         repo = Repo(args.root)
         ctx = Context(prop, repo, args.tier, seed)
         mod.run(ctx)
-        if args.tier == "thorough" and not args.no_selftest and args.root is None and hasattr(mod, "MUTANTS"):
+        if args.tier == "thorough" and not args.no_selftest and args.root is None:
             from .selftest import run_selftest
 
             run_selftest(ctx, mod)
